@@ -19,7 +19,7 @@ TECHNIQUE = ('history monitor: interleavings of load / forced load / enforce / e
              'caller-owned defaults; per-step differential against a fresh Enforcer and deep attribute snapshots of the shared objects')
 RULE = ('histories over {load, forced load, enforce, edit file} x enforcer index; H = every interleaving up to the length '
         'bound for two enforcers (one with enforce_new_defaults off, one on); R = random interleavings of 5-30 steps over '
-        '1-3 enforcers with random option values and file contents; shared defaults with and without deprecated '
+        '1-3 enforcers with random option values and file contents, with or without a policy directory (edited too) and with or without a main file (which may be deleted); shared defaults with and without deprecated '
         'predecessors (renamed, same-name with changed default, plain). Non-trivial = the history has at least two loads '
         'of one enforcer or involves two enforcers; distinct = distinct (configuration, history).')
 ASSUMPTIONS = ['sharing of sub-objects between registered copies is not alteration: the statement is behavioural, so only '
@@ -39,6 +39,7 @@ NAMES = ['new', 'old', 'same', 'plain', 'zz']
 ROLES = ['x', 'y', 'z', 'n', 'o', 'p', 'q', 'm']
 ROLESETS = [[r] for r in ROLES] + [['n', 'p'], ['o', 'm'], ['p', 'q'], []]
 OPS = ['load', 'force', 'enforce', 'edit']
+OPS_R = ['load', 'force', 'enforce', 'edit', 'editdir', 'editdir', 'rmmain']
 CONTENTS = [{}, {'new': 'role:x'}, {'old': 'role:y'}, {'same': 'role:z', 'plain': 'role:x'}, {'old': 'rule:new'},
             {'extra': 'role:x', 'old': 'role:z', 'new': 'role:y'}]
 
@@ -106,12 +107,16 @@ def run_history(ctx, case):
     worlds = []
     try:
         for cfg_ in case['enforcers']:
-            tree = files.Tree(dirs=())
+            with_dir = bool(cfg_.get('with_dir'))
+            tree = files.Tree(dirs=('pd',) if with_dir else ())
             if cfg_['initial'] is not None:
                 tree.write('policy.yaml', CONTENTS[cfg_['initial']], 'json')
-            enf = policy.Enforcer(tree.conf(policy_dirs=[], enforce_new_defaults=cfg_['flag']))
+            if with_dir and cfg_.get('dir_initial') is not None:
+                tree.write('pd/o.yaml', CONTENTS[cfg_['dir_initial']], 'json')
+            dirs = [tree.path('pd')] if with_dir else []
+            enf = policy.Enforcer(tree.conf(policy_dirs=dirs, enforce_new_defaults=cfg_['flag']))
             enf.register_defaults(shared)
-            worlds.append(dict(tree=tree, enf=enf, flag=cfg_['flag'], last=None))
+            worlds.append(dict(tree=tree, enf=enf, flag=cfg_['flag'], last=None, dirs=dirs))
         for i, (op, who, arg) in enumerate(case['history']):
             w = worlds[who % len(worlds)]
             edited = False
@@ -123,6 +128,11 @@ def run_history(ctx, case):
                     ctx.count('forced_reloads')
                 elif op == 'enforce':
                     w['enf'].enforce(NAMES[arg % len(NAMES)], {}, {'roles': [ROLES[arg % len(ROLES)]]})
+                elif op == 'editdir':
+                    if w['dirs']:
+                        w['tree'].write('pd/o.yaml', CONTENTS[arg % len(CONTENTS)], 'json')
+                elif op == 'rmmain':
+                    w['tree'].delete('policy.yaml')
                 else:
                     w['tree'].write('policy.yaml', CONTENTS[arg % len(CONTENTS)], 'json' if arg % 2 else 'yaml-lines')
                     edited = True
@@ -137,7 +147,7 @@ def run_history(ctx, case):
                 return
             for wi, ww in enumerate(worlds):
                 got = decisions(ww['enf'])
-                fresh = policy.Enforcer(ww['tree'].conf(policy_dirs=[], enforce_new_defaults=ww['flag']))
+                fresh = policy.Enforcer(ww['tree'].conf(policy_dirs=ww['dirs'], enforce_new_defaults=ww['flag']))
                 fresh.register_defaults(make_defaults(policy, case['with_dep'], case.get('dshape', 0)))
                 want = decisions(fresh)
                 ctx.count('steps_compared')
@@ -182,7 +192,8 @@ def run(ctx):
                     break
                 history = [[op, who, (idx + j) % 7] for j, (op, who) in enumerate(hist)]
                 case = dict(s='H', with_dep=with_dep, dshape=idx % 24, history=history,
-                            enforcers=[dict(flag=False, initial=[None, 1, 2, 4][idx % 4]), dict(flag=True, initial=[3, None, 5][idx % 3])])
+                            enforcers=[dict(flag=False, initial=[None, 1, 2, 4][idx % 4], with_dir=bool(idx % 5 == 0), dir_initial=2),
+                                       dict(flag=True, initial=[3, None, 5][idx % 3])])
                 run_history(ctx, case)
                 if idx % 400 == 0:
                     ctx.sample(case, 'H')
@@ -197,8 +208,9 @@ def run(ctx):
             break
         k = rnd.randint(1, 3)
         case = dict(s='R', with_dep=rnd.random() < 0.8, dshape=rnd.randrange(24),
-                    enforcers=[dict(flag=rnd.random() < 0.5, initial=rnd.choice([None, 0, 1, 2, 3, 4, 5])) for _ in range(k)],
-                    history=[[rnd.choice(OPS), rnd.randrange(k), rnd.randrange(40)] for _ in range(rnd.randint(5, 30))])
+                    enforcers=[dict(flag=rnd.random() < 0.5, initial=rnd.choice([None, None, 0, 1, 2, 3, 4, 5]), with_dir=rnd.random() < 0.5,
+                                    dir_initial=rnd.choice([None, 1, 2, 3, 5])) for _ in range(k)],
+                    history=[[rnd.choice(OPS_R), rnd.randrange(k), rnd.randrange(40)] for _ in range(rnd.randint(5, 30))])
         run_history(ctx, case)
         if i % 20 == 0:
             ctx.sample(dict(case, history=case['history'][:8] + ['...']), 'R')
